@@ -8,6 +8,7 @@ import itertools
 from vf.monitor import Probes, structure_digest
 from vf.ref.psl import PSL
 
+MIN_RANDOM = 150  # random iterations run per shard whatever the wall-clock budget (floors must not depend on machine load)
 SHARDS = {"quick": 4, "thorough": 16}
 BUDGET = {"quick": 20, "thorough": 240}
 MIN_CASES = {"quick": 20000, "thorough": 200000}
@@ -306,7 +307,7 @@ def run(ctx):
         ctx.freeze_outputs()
         n = 0
         lim = 300 if ctx.tier == "quick" else 10 ** 7
-        while ctx.time_left() and n < lim:
+        while (ctx.time_left() or n < MIN_RANDOM) and n < lim:
             n += 1
             rs = rng.sample(cands, rng.randint(3 if ctx.tier == "quick" else 4, 6))
             check_ruleset(ctx, SuffixTrie, rs, "synthetic")
